@@ -121,10 +121,14 @@ static const char* kHistories[] = {
     "b R, s x 1, b R",
     "b A, s y 1, b R",
     "b R, s x 1, s y 1, b R, b R",
+    "b R, s x 1, b R @9999, r, s x 0, b R",   // (quick tier ends here)
     "b R, t A, b R",
     "b R, r, s x 1, b R",
     "b A, b R, s x 1, b A, s y 1, b R",
     "b R, s y 1, b R, r, s y 0, t A, b R",
+    // a build that is interrupted gracefully (cancelled two thirds through, resolved per world) before the process
+    // goes on / restarts: what it leaves in the database is what a kill in a LATER build falls back to
+    "b A, s x 1, s y 1, b R @9999, s y 0, b R, r, b R",
 };
 static const char* kContinuations[] = {
     "b R",
@@ -253,6 +257,29 @@ static void exploreOne(const uv::World& w, const std::string& histTmpl, vj::Resu
   std::string dir = g_root + "/db";
   std::string cmd = "rm -rf " + dir + " && mkdir -p " + dir;
   (void)system(cmd.c_str());
+  // resolve "@9999": cancel that build at two thirds of the steps it takes when left alone
+  for (size_t i = 0; i < h.size(); ++i) {
+    if (h[i].cancelAt != 9999) continue;
+    vj::Result scratch;
+    Config cfg;
+    cfg.prop = "C04";
+    cfg.useDB = true;
+    cfg.dbPath = dir + "/dry.db";
+    cfg.checkC02 = false; cfg.checkProto = false; cfg.checkC07 = false; cfg.checkPersist = false; cfg.checkC01 = false;
+    int steps = 0;
+    {
+      Session s(w, cfg, scratch);
+      for (size_t j = 0; j <= i; ++j) {
+        Event ev = h[j];
+        if (j == i) ev.cancelAt = -1;
+        BuildObs o;
+        s.apply(ev, &o);
+        if (j == i) steps = o.steps;
+      }
+    }
+    h[i].cancelAt = std::max(1, steps * 2 / 3);
+    (void)system(cmd.c_str());
+  }
 
   ChildLog dry;
   int ec = 0;
@@ -528,7 +555,7 @@ int main(int argc, char** argv) {
       "rule programs from the enginex grammar; tasks are deterministic"};
   bool T = args.thorough();
   int nw = (int)(sizeof(kWorlds) / sizeof(kWorlds[0]));
-  int nh = T ? (int)(sizeof(kHistories) / sizeof(kHistories[0])) : 4;
+  int nh = T ? (int)(sizeof(kHistories) / sizeof(kHistories[0])) : 5;
 
   if (!args.replaySpec.empty()) {
     // world|history|N[|ci]  -- re-run that single kill point (all continuations)
@@ -554,7 +581,7 @@ int main(int argc, char** argv) {
     return res.violations.empty() ? 0 : 1;
   }
 
-  fanScenario(T ? 700 : 300, res);
+  fanScenario(T ? 5000 : 1100, res);
   int item = 0;
   for (int wi = 0; wi < nw; ++wi)
     for (int hi = 0; hi < nh; ++hi, ++item) {
